@@ -36,7 +36,7 @@ SPEC = {
     "level": "model_checking",
     "harnesses": _hs(),
     "caps": {"jobs": int(os.environ.get("VERIF_JOBS", "16")), "mem_gb": 10,
-             "quick_harness_timeout": 300, "thorough_harness_timeout": 600},
+             "quick_harness_timeout": 300, "thorough_harness_timeout": 1200},
     "functions": [
         "tracing_appender::non_blocking: <NonBlocking as io::Write>::{write, write_all}, NonBlocking::{clone, error_counter}, "
         "ErrorCounter::{incr_saturating, dropped_lines}",
